@@ -279,6 +279,30 @@ pub fn run_c13(run: &Run) {
             run.add_outcomes(st.2);
         }
     }
+    if !run.quick() {
+        // five variables: one residue class modulo 4099 of all 2^32 functions (about one million)
+        let n = 5usize;
+        let step = 4099u64;
+        let first = run.seed % step;
+        let total = ((1u64 << 32) - first + step - 1) / step;
+        let res = run.par_family(
+            &format!("functions of 5 variables, residue class {} mod {} ({} functions), every node queried", first, step, total),
+            total,
+            || (0u64, 0u64),
+            |st, k| {
+                let tt = (first + step * k) as TT;
+                st.0 += 1;
+                st.1 += (support(tt, n).len() >= 2) as u64;
+                for (kind, msg) in fn_case(tt, n, 5) {
+                    run.violation(&kind, format!("{} (function {:#x} over 5 variables)", msg, tt), json!({"type": "function", "tt": tt, "vars": n, "writer": 5}));
+                }
+            },
+            &|k| json!({"type": "function", "tt": first + step * k, "vars": n, "writer": 5}),
+        );
+        for st in res {
+            run.add_counts(st.0, st.0 * 30, st.0, st.1);
+        }
+    }
     run.sample(json!({"type": "function", "tt": 0x6996, "vars": 4, "writer": 0}));
     // exploration with queries in every state
     let flags = Flags { canonical: false, functions: false, memo: false, queries: true };
